@@ -1000,8 +1000,96 @@ class Inliner:
                         i += 2
         return n
 
+    def raising_helpers(self):
+        """A NEW helper every path of which ends in `raise` never returns: the statement `_fail(msg, x)` (or `return _fail(...)`)
+        is `raise E(msg, x)` with E the one exception class the helper raises (a class name, or the helper's parameter that the
+        call binds to a class name).  Message texts are not part of any rule; position and class of the exception are."""
+        prog = self.prog
+
+        def always_raises(stmts):
+            if not stmts:
+                return False
+            last = stmts[-1]
+            if isinstance(last, ast.Raise):
+                return True
+            if isinstance(last, ast.If):
+                return bool(last.orelse) and always_raises(last.body) and always_raises(last.orelse)
+            return False
+
+        helpers = {}
+        for q, h in prog.functions.items():
+            if q in self.inv_funcs or h.parent is not None or h.decorators and any(d not in ("staticmethod",) for d in h.decorators):
+                continue
+            body = self._body(h)
+            if not always_raises(body) or any(isinstance(n, (ast.Return, ast.Yield, ast.YieldFrom)) for n in ast.walk(h.node)):
+                continue
+            if any(isinstance(n, (ast.For, ast.While, ast.Try, ast.With)) for n in ast.walk(h.node)):
+                continue
+            raises = [n for n in ast.walk(h.node) if isinstance(n, ast.Raise)]
+            excs = set()
+            for r_ in raises:
+                e = r_.exc
+                if isinstance(e, ast.Call):
+                    e = e.func
+                excs.add(unparse(e) if isinstance(e, (ast.Name, ast.Attribute)) else None)
+            if len(excs) != 1 or None in excs:
+                continue
+            # no other effect than building the message: assignments to locals and the raise
+            if any(isinstance(n, (ast.Attribute, ast.Subscript)) and isinstance(n.ctx, (ast.Store, ast.Del)) for n in ast.walk(h.node)):
+                continue
+            helpers[q] = (h, excs.pop())
+        if not helpers:
+            return
+        by_name = {}
+        for q, (h, e) in helpers.items():
+            by_name.setdefault(h.name, []).append(q)
+
+        def rewrite(fn, stmts):
+            out = []
+            for st in stmts:
+                for fld in ("body", "orelse", "finalbody"):
+                    sub = getattr(st, fld, None)
+                    if isinstance(sub, list) and sub and isinstance(sub[0], ast.stmt) and not isinstance(st, (ast.FunctionDef, ast.ClassDef)):
+                        setattr(st, fld, rewrite(fn, sub))
+                for hd in getattr(st, "handlers", []) or []:
+                    hd.body = rewrite(fn, hd.body)
+                call = st.value if isinstance(st, (ast.Expr, ast.Return)) and isinstance(st.value, ast.Call) else None
+                if call is not None:
+                    h, _self = self._helper_for0(fn, call)
+                    if h is not None and h.qual in helpers and h.qual != fn.qual:
+                        hh, exc = helpers[h.qual]
+                        params = hh.params[1:] if (hh.cls is not None and not hh.is_staticmethod) else hh.params
+                        exc_node = None
+                        if exc in params:
+                            i = params.index(exc)
+                            arg = call.args[i] if i < len(call.args) else next((k.value for k in call.keywords if k.arg == exc), None)
+                            if isinstance(arg, (ast.Name, ast.Attribute)):
+                                exc_node = copy.deepcopy(arg)
+                                rest = [a for j, a in enumerate(call.args) if j != i]
+                        else:
+                            exc_node = ast.parse(exc, mode="eval").body
+                            rest = list(call.args)
+                        if exc_node is not None and not any(isinstance(a, ast.Starred) for a in call.args):
+                            new = ast.Raise(exc=ast.Call(func=exc_node, args=[copy.deepcopy(a) for a in rest] + [copy.deepcopy(k.value) for k in call.keywords if k.arg != exc], keywords=[]), cause=None)
+                            ast.copy_location(new, st)
+                            ast.fix_missing_locations(new)
+                            out.append(new)
+                            self.inlined.append((fn.qual, h.qual))
+                            continue
+                out.append(st)
+            return out
+
+        for q, fn in list(prog.functions.items()):
+            if fn.parent is not None or q in helpers:
+                continue
+            if not any(isinstance(n, ast.Call) and ((dotted(n.func) or "").split(".")[-1] in by_name) for n in ast.walk(fn.node)):
+                continue
+            fn.node.body = rewrite(fn, fn.node.body)
+            ast.fix_missing_locations(fn.node)
+
     def run(self):
         self.propagate_constants()
+        self.raising_helpers()
         self.inline_properties()
         self.expand_updates()
         self.expand_generator_lists()
@@ -1241,14 +1329,122 @@ def normalise_expressions(prog):
         drop = {id(st) for st in cands.values()}
         fnode.body = [F().visit(st) for st in fnode.body if id(st) not in drop]
 
+    inv_ = load_inventory() or {"functions": []}
+    ref_known = set(inv_["functions"])
+
+    def attribute_aliases(f, keep):
+        """`slices = self.slices` / `terms = self.terms` / `name = term.name`: a local bound ONCE to a plain attribute chain of a
+        parameter or loop variable, in a function that stores no attribute of that name (and calls no method of its own class
+        that does), is the attribute itself: every later read of the local is the chain again (micro-optimisations that cache
+        attribute look-ups; the containers are shared objects, so a store through the alias is a store into the attribute)."""
+        fnode = f.node
+        stores = {}
+        for n in ast.walk(fnode):
+            if isinstance(n, ast.Name) and isinstance(n.ctx, (ast.Store, ast.Del)):
+                stores[n.id] = stores.get(n.id, 0) + 1
+        params = set(f.params) | {a.arg for a in fnode.args.kwonlyargs}
+        attr_stores = {n.attr for n in ast.walk(fnode) if isinstance(n, ast.Attribute) and isinstance(n.ctx, (ast.Store, ast.Del))}
+        # attributes stored by methods of the own class that this function calls on its first parameter
+        if f.cls is not None and f.params:
+            me = f.params[0]
+            for c in ast.walk(fnode):
+                if isinstance(c, ast.Call) and isinstance(c.func, ast.Attribute) and isinstance(c.func.value, ast.Name) and c.func.value.id == me:
+                    m = f.cls.methods.get(c.func.attr)
+                    if m is not None:
+                        attr_stores |= {n.attr for n in ast.walk(m.node) if isinstance(n, ast.Attribute) and isinstance(n.ctx, (ast.Store, ast.Del))}
+                    else:
+                        attr_stores.add("*")
+
+        def chain(e):
+            names = []
+            while isinstance(e, ast.Attribute):
+                names.append(e.attr)
+                e = e.value
+            return (e.id, names) if isinstance(e, ast.Name) and names else (None, None)
+
+        def blocks(stmts):
+            yield stmts
+            for st in stmts:
+                if isinstance(st, (ast.FunctionDef, ast.ClassDef)):
+                    continue
+                for fld in ("body", "orelse", "finalbody"):
+                    sub = getattr(st, fld, None)
+                    if isinstance(sub, list) and sub and isinstance(sub[0], ast.stmt):
+                        yield from blocks(sub)
+                for h in getattr(st, "handlers", []) or []:
+                    yield from blocks(h.body)
+
+        changed = True
+        rounds = 0
+        while changed and rounds < 6:
+            changed = False
+            rounds += 1
+            for blk in blocks(fnode.body):
+                for i, st in enumerate(blk):
+                    view = isinstance(st, ast.Assign) and isinstance(st.value, ast.Call) and isinstance(st.value.func, ast.Attribute) \
+                        and st.value.func.attr in ("values", "items", "keys") and not st.value.args and not st.value.keywords \
+                        and isinstance(st.value.func.value, ast.Attribute)
+                    # G["KEY"] of a module-level object (the configuration): read once or at every use - nothing in this function
+                    # writes to G
+                    gkey = isinstance(st, ast.Assign) and isinstance(st.value, ast.Subscript) and isinstance(st.value.value, ast.Name) \
+                        and isinstance(st.value.slice, ast.Constant) and st.value.value.id not in stores and st.value.value.id not in params \
+                        and not any(isinstance(n, ast.Subscript) and isinstance(n.ctx, (ast.Store, ast.Del)) and isinstance(n.value, ast.Name)
+                                    and n.value.id == st.value.value.id for n in ast.walk(fnode))
+                    if not (isinstance(st, ast.Assign) and len(st.targets) == 1 and isinstance(st.targets[0], ast.Name) and (isinstance(st.value, ast.Attribute) or view or gkey)):
+                        continue
+                    name = st.targets[0].id
+                    # a dict view (D.values()) is a live view of the dict: reading it later is reading D.values() later
+                    base, attrs = (st.value.value.id, ["<item>"]) if gkey else chain(st.value.func.value if view else st.value)
+                    if unparse(st) in keep:
+                        continue
+                    if base is None or name in params or stores.get(name) != 1 or base == name:
+                        continue
+                    if "*" in attr_stores and len(attrs) >= 1 and base == (f.params[0] if f.params else None) and False:
+                        continue
+                    if any(a in attr_stores for a in attrs):
+                        continue
+                    rest = blk[i + 1:]
+                    # the base must keep its value while the alias is live
+                    if any(isinstance(n, ast.Name) and n.id == base and isinstance(n.ctx, (ast.Store, ast.Del)) for r_ in rest for n in ast.walk(r_)):
+                        continue
+                    loads = [n for n in ast.walk(fnode) if isinstance(n, ast.Name) and n.id == name and isinstance(n.ctx, ast.Load)]
+                    inside = {id(n) for r_ in rest for n in ast.walk(r_)}
+                    if not loads or not all(id(n) in inside for n in loads):
+                        continue
+                    # not captured by a nested function / lambda (late binding)
+                    if any(isinstance(n, (ast.FunctionDef, ast.Lambda)) and any(isinstance(x, ast.Name) and x.id == name for x in ast.walk(n)) for r_ in rest for n in ast.walk(r_)):
+                        continue
+                    # kinds of attributes that are containers / plain fields; a chain ending in a call-like property is left alone
+                    value = st.value
+
+                    class R(ast.NodeTransformer):
+                        def visit_Name(s_, n):
+                            if n.id == name and isinstance(n.ctx, ast.Load):
+                                return ast.copy_location(copy.deepcopy(value), n)
+                            return n
+
+                    blk[i + 1:] = [R().visit(r_) for r_ in rest]
+                    del blk[i]
+                    stores[name] = 0
+                    changed = True
+                    break
+                if changed:
+                    break
+
     for f in prog.functions.values():
         if f.parent is not None:
             continue
         try:
             N0(f.node).visit(f.node)
             f.node.body = split_tuple_assignments(f.node.body)
+            from .canon import _unreachable as _fold_constant_ifs
+            if any(isinstance(n, ast.If) and isinstance(n.test, ast.Constant) for n in ast.walk(f.node)):
+                f.node.body = _fold_constant_ifs(f.node.body) or [ast.Pass()]
             if markers:
                 forward_markers(f.node)
+            # only in functions that differ from the reference (or are new), and never an alias the reference itself has
+            if f.qual in getattr(prog, "differing", []) or f.qual not in ref_known:
+                attribute_aliases(f, getattr(prog, "ref_aliases", {}).get(f.qual, set()))
             ast.fix_missing_locations(f.node)
         except Exception:  # noqa: BLE001
             pass
